@@ -160,7 +160,7 @@ func startsWithEmptyLine(v string) bool {
 
 var specC08Write = Register(&Spec[WriteCase]{
 	Prop: "C08", Name: "write",
-	Rule: "paragraphs of 1..6 valid field names whose values are line sequences: 1..8 lines, each text (no trailing blanks, not exactly '.'), indented text, or empty (also runs of 2..3 empty lines, also as last line), trailing newline present or absent, first line sometimes indented; a value is sometimes the empty string. Oracle: WriteTo output has no empty/whitespace-only line; reading it gives exactly one paragraph with the same Order and per field the same logical lines (equal up to one trailing newline); writing what was read reproduces the text byte for byte. Non-trivial: some value has >= 2 lines; distinct by paragraph.",
+	Rule: "paragraphs of 1..6 valid field names whose values are line sequences: 1..8 lines, each text (no trailing blanks, not exactly '.'), indented text, or empty (also runs of 2..3 empty lines, also as last line), trailing newline present or absent, first line sometimes indented; a value is sometimes the empty string. Oracle: WriteTo output has no empty/whitespace-only line; reading it gives exactly one paragraph with the same Order and per field the same logical lines (equal up to one trailing newline); writing what was read reproduces the text byte for byte; WriteTo / Encoder.Encode into a writer that fails after 0, 1, half or all but one of the bytes return an error and have delivered a prefix of the text. Non-trivial: some value has >= 2 lines; distinct by paragraph.",
 	Check: func(c WriteCase, r *Recorder) error {
 		nt := false
 		for _, f := range c.Feats {
@@ -201,6 +201,29 @@ var specC08Write = Register(&Spec[WriteCase]{
 		}
 		if w2 != w {
 			return errf("write(read(w)) != w: %q became %q", w, w2)
+		}
+		// a writer that fails (disk full, connection gone) after k bytes: what was written is a
+		// prefix of the paragraph's text, and the caller is told - a paragraph that did not get
+		// out is not reported as written
+		for _, k := range []int{0, 1, len(w) / 2, len(w) - 1} {
+			if k < 0 || k >= len(w) {
+				continue
+			}
+			fw := &failingWriter{room: k}
+			werr := p.WriteTo(fw)
+			if werr == nil {
+				return errf("WriteTo into a writer that fails after %d of %d bytes returned no error (it took %q)", k, len(w), fw.buf.String())
+			}
+			if !strings.HasPrefix(w, fw.buf.String()) {
+				return errf("WriteTo into a writer that fails after %d bytes delivered %q, which is not a prefix of the paragraph's text %q", k, fw.buf.String(), w)
+			}
+			var eb failingWriter
+			eb.room = k
+			if enc, err := control.NewEncoder(&eb); err == nil {
+				if eerr := enc.Encode(&p); eerr == nil {
+					return errf("Encoder.Encode into a writer that fails after %d of %d bytes returned no error", k, len(w))
+				}
+			}
 		}
 		return nil
 	},
@@ -464,6 +487,25 @@ var specC08Encoder = Register(&Spec[EncCase]{
 
 func TestC08_Encoder(t *testing.T) {
 	specC08Encoder.Run(t, genEncCase, 10000, 60000)
+}
+
+// failingWriter takes room bytes and then fails (a short write with an error, as io.Writer wants it).
+type failingWriter struct {
+	room int
+	buf  bytes.Buffer
+}
+
+var errWriterFull = fmt.Errorf("verif: no space left on device")
+
+func (f *failingWriter) Write(p []byte) (int, error) {
+	if len(p) <= f.room {
+		f.room -= len(p)
+		return f.buf.Write(p)
+	}
+	n := f.room
+	f.buf.Write(p[:n])
+	f.room = 0
+	return n, errWriterFull
 }
 
 // ------------------------------------------------------------------ independent writers at the same time
